@@ -127,6 +127,9 @@ def g_double(rng, nan_ok=False):
 
 def g_label(rng):
     n = rng.choice([0, 1, 1, 2, 5, 5, 17, 255, 255, 256, 300])
+    if n > 1 and rng.random() < 0.25:
+        # arbitrary bytes: embedded NUL (a C-string copy stops there), 0xff, control characters
+        return bytes(rng.choice(b"ab\x00\x00\xff\x01\n;/.Z") for _ in range(n))
     return bytes(rng.choice(b"abcXYZ 0123\xc3\xa9") for _ in range(n))
 
 
